@@ -182,27 +182,129 @@ func (q PathQuery) from(fn *ssa.Function, start ssa.Instruction, startBlock *ssa
 	if len(fn.Blocks) == 0 {
 		return nil, nil
 	}
+	// The search runs over the function TOGETHER WITH the bodies of the calls it looks through (local closures
+	// called directly, same-package helpers the rules have never seen): such a call continues in the callee and a
+	// callee's return continues after the call. Constant results of the callee are remembered along the path so
+	// that the caller's test of that very result only follows the feasible branch.
 	type item struct {
-		b    *ssa.BasicBlock
-		i    int
-		prev *item
+		chain []*ssa.Call
+		b     *ssa.BasicBlock
+		i     int
+		known map[ssa.Value]string // call (single result) or extract -> "true" | "false" | "nil"
+		prev  *item
+	}
+	keyOf := func(it *item) string {
+		var sb strings.Builder
+		for _, c := range it.chain {
+			fmt.Fprintf(&sb, "%p/", c)
+		}
+		fmt.Fprintf(&sb, "%p:%d", it.b, it.i)
+		if len(it.known) > 0 {
+			ks := make([]string, 0, len(it.known))
+			for k, v := range it.known {
+				ks = append(ks, fmt.Sprintf("%p=%s", k, v))
+			}
+			sort.Strings(ks)
+			sb.WriteString("|" + strings.Join(ks, ","))
+		}
+		return sb.String()
 	}
 	var first *item
 	if startBlock != nil {
-		first = &item{startBlock, 0, nil}
+		first = &item{b: startBlock}
 	} else if start == nil {
-		first = &item{fn.Blocks[0], 0, nil}
+		first = &item{b: fn.Blocks[0]}
 	} else {
-		first = &item{start.Block(), Index(start) + 1, nil}
+		first = &item{b: start.Block(), i: Index(start) + 1}
 	}
-	seen := map[*ssa.BasicBlock]bool{} // block entered at index 0
+	constOf := func(v ssa.Value) string {
+		vals := ValuesAt(v)
+		if len(vals) != 1 {
+			return ""
+		}
+		if b, ok := ConstBool(vals[0]); ok {
+			return fmt.Sprint(b)
+		}
+		if IsNilConst(vals[0]) {
+			return "nil"
+		}
+		return ""
+	}
+	// decide evaluates a branch condition from what is known on this path: +1 true, -1 false, 0 unknown
+	var decide func(cond ssa.Value, known map[ssa.Value]string) int
+	decide = func(cond ssa.Value, known map[ssa.Value]string) int {
+		if len(known) == 0 {
+			return 0
+		}
+		switch x := cond.(type) {
+		case *ssa.UnOp:
+			if x.Op == token.NOT {
+				return -decide(x.X, known)
+			}
+		case *ssa.BinOp:
+			if x.Op == token.EQL || x.Op == token.NEQ {
+				for _, pair := range [][2]ssa.Value{{x.X, x.Y}, {x.Y, x.X}} {
+					if IsNilConst(pair[1]) {
+						if k, ok := known[pair[0]]; ok && k == "nil" {
+							if x.Op == token.EQL {
+								return 1
+							}
+							return -1
+						}
+					}
+				}
+			}
+		}
+		if k, ok := known[cond]; ok {
+			switch k {
+			case "true":
+				return 1
+			case "false":
+				return -1
+			}
+		}
+		return 0
+	}
+	seen := map[string]bool{}
 	work := []*item{first}
 	for len(work) > 0 {
 		it := work[0]
 		work = work[1:]
-		blocked := false
-		for i := it.i; i < len(it.b.Instrs); i++ {
+		stopped := false
+		for i := it.i; i < len(it.b.Instrs) && !stopped; i++ {
 			in := it.b.Instrs[i]
+			if ret, isRet := in.(*ssa.Return); isRet && len(it.chain) > 0 {
+				// the end of a looked-through callee: continue after the call, remembering constant results
+				call := it.chain[len(it.chain)-1]
+				known := map[ssa.Value]string{}
+				for k, v := range it.known {
+					known[k] = v
+				}
+				if len(ret.Results) == 1 {
+					if k := constOf(ret.Results[0]); k != "" {
+						known[call] = k
+					} else {
+						delete(known, call)
+					}
+				} else {
+					for _, u := range Referrers(call) {
+						if ex, ok := u.(*ssa.Extract); ok && ex.Index < len(ret.Results) {
+							if k := constOf(ret.Results[ex.Index]); k != "" {
+								known[ex] = k
+							} else {
+								delete(known, ex)
+							}
+						}
+					}
+				}
+				nx := &item{chain: it.chain[:len(it.chain)-1], b: call.Block(), i: Index(call) + 1, known: known, prev: it}
+				if k := keyOf(nx); !seen[k] {
+					seen[k] = true
+					work = append(work, nx)
+				}
+				stopped = true
+				break
+			}
 			if q.Target != nil && q.Target(in) {
 				var path []*ssa.BasicBlock
 				for p := it; p != nil; p = p.prev {
@@ -211,22 +313,57 @@ func (q PathQuery) from(fn *ssa.Function, start ssa.Instruction, startBlock *ssa
 				return in, path
 			}
 			if q.Avoid != nil && q.Avoid(in) {
-				blocked = true
+				stopped = true
 				break
 			}
+			if call, isCall := in.(*ssa.Call); isCall && len(it.chain) < 3 {
+				if h := TransparentCallee(call); h != nil && h != fn && len(h.Blocks) > 0 {
+					onChain := h == it.b.Parent()
+					for _, c := range it.chain {
+						if c.Parent() == h {
+							onChain = true
+						}
+					}
+					if !onChain {
+						nx := &item{chain: append(append([]*ssa.Call{}, it.chain...), call), b: h.Blocks[0], known: it.known, prev: it}
+						if k := keyOf(nx); !seen[k] {
+							seen[k] = true
+							work = append(work, nx)
+						}
+						stopped = true
+						break
+					}
+				}
+			}
 		}
-		if blocked {
+		if stopped {
 			continue
 		}
+		var only *ssa.BasicBlock
+		if n := len(it.b.Instrs); n > 0 {
+			if iff, isIf := it.b.Instrs[n-1].(*ssa.If); isIf && len(it.b.Succs) == 2 {
+				switch decide(iff.Cond, it.known) {
+				case 1:
+					only = it.b.Succs[0]
+				case -1:
+					only = it.b.Succs[1]
+				}
+			}
+		}
 		for _, s := range it.b.Succs {
+			if only != nil && s != only {
+				continue
+			}
 			if q.AvoidEdge != nil && q.AvoidEdge(it.b, s) {
 				continue
 			}
-			if seen[s] {
+			nx := &item{chain: it.chain, b: s, known: it.known, prev: it}
+			if k := keyOf(nx); seen[k] {
 				continue
+			} else {
+				seen[k] = true
 			}
-			seen[s] = true
-			work = append(work, &item{s, 0, it})
+			work = append(work, nx)
 		}
 	}
 	return nil, nil
@@ -689,6 +826,48 @@ func GuardingEdges(in ssa.Instruction) []CondEdge {
 			}
 		}
 	}
+	// conditions decided inside calls the analyses look through (a validation moved into a helper): an edge of the
+	// helper that every path to `in` takes guards it just the same
+	for _, h := range transparentCalleesOf(fn, 2) {
+		for _, b := range h.Blocks {
+			if len(b.Instrs) == 0 {
+				continue
+			}
+			iff, ok := b.Instrs[len(b.Instrs)-1].(*ssa.If)
+			if !ok {
+				continue
+			}
+			for _, br := range []bool{true, false} {
+				e := CondEdge{iff, br}
+				if EdgeGuards(e, in) {
+					out = append(out, e)
+				}
+			}
+		}
+	}
+	return out
+}
+
+// transparentCalleesOf lists the functions reached from fn through calls the analyses look through.
+func transparentCalleesOf(fn *ssa.Function, depth int) []*ssa.Function {
+	var out []*ssa.Function
+	seen := map[*ssa.Function]bool{fn: true}
+	var walk func(f *ssa.Function, d int)
+	walk = func(f *ssa.Function, d int) {
+		if d == 0 {
+			return
+		}
+		Instrs(f, func(in ssa.Instruction) {
+			if call, ok := in.(*ssa.Call); ok {
+				if h := TransparentCallee(call); h != nil && !seen[h] && len(h.Blocks) > 0 {
+					seen[h] = true
+					out = append(out, h)
+					walk(h, d-1)
+				}
+			}
+		})
+	}
+	walk(fn, depth)
 	return out
 }
 
